@@ -5,19 +5,20 @@
 import Kopf.Lemmas.C18_Total
 import Kopf.Lemmas.C18_Spec
 import Kopf.Lemmas.C18_Misc
+import Kopf.Lemmas.C18_Fns
 namespace Kopf.C18
 open Kopf Kopf.J
 
 /-! ## allowed / status / warnings -/
 
 /-- allowed ⇔ no selected handler raised -/
-theorem allowed_iff (outs : List Outcome) (ws : List String) :
-    (buildResponse outs ws).allowed = true ↔ ∀ o ∈ outs, o = none := by
+theorem allowed_iff {Op : Type} (outs : List Outcome) (ws : List String) (ops : List Op) :
+    (buildResponse outs ws ops).allowed = true ↔ ∀ o ∈ outs, o = none := by
   simp [buildResponse, List.all_eq_true, Option.isNone_iff_eq_none]
 
 /-- a status (message, code) is reported exactly on denial -/
-theorem status_iff_denied (outs : List Outcome) (ws : List String) :
-    (buildResponse outs ws).status = none ↔ (buildResponse outs ws).allowed = true := by
+theorem status_iff_denied {Op : Type} (outs : List Outcome) (ws : List String) (ops : List Op) :
+    (buildResponse outs ws ops).status = none ↔ (buildResponse outs ws ops).allowed = true := by
   rw [allowed_iff, ← errorsOf_eq_nil, ← pickMin_eq_none]
   simp [buildResponse]
 
@@ -28,8 +29,8 @@ theorem prio_strict_order :
 
 /-- The reported error is a raised one with the minimal priority key, and the FIRST such in the
     order of the outcomes (Python's stable sort); message and code are taken from it. -/
-theorem error_priority (outs : List Outcome) (ws : List String) (st : Status)
-    (h : (buildResponse outs ws).status = some st) :
+theorem error_priority {Op : Type} (outs : List Outcome) (ws : List String) (ops : List Op) (st : Status)
+    (h : (buildResponse outs ws ops).status = some st) :
     ∃ pre m post, errorsOf outs = pre ++ m :: post ∧
       st = ⟨message m, statusCode m⟩ ∧
       (∀ e ∈ pre, prio m.kind < prio e.kind) ∧ (∀ e ∈ post, prio m.kind ≤ prio e.kind) := by
@@ -38,24 +39,21 @@ theorem error_priority (outs : List Outcome) (ws : List String) (st : Status)
   obtain ⟨pre, post, hdec, hpre, hpost⟩ := pickMin_spec _ m hm
   exact ⟨pre, m, post, hdec, rfl, hpre, hpost⟩
 
-/-- code: the admission error's own code when it is truthy, else 500; message: `str(e) or repr(e)` -/
-theorem status_code_message (e : Err) :
-    statusCode e = (if e.kind = .admission then
-                      (match e.code with
-                       | some c => if c = 0 then 500 else c
-                       | none => 500)
-                    else 500) ∧
-    message e = (if e.str = "" then e.repr else e.str) := by
-  constructor
-  · rcases e with ⟨k, c, s, r⟩
-    cases k <;> cases c <;> simp [statusCode]
-  · by_cases hs : e.str = "" <;> simp [message, hs]
-
 /-- warnings are returned unchanged and in order (the field is absent iff there are none) -/
-theorem warnings_order (outs : List Outcome) (ws : List String) :
-    (buildResponse outs ws).warnings.getD [] = ws ∧
-    ((buildResponse outs ws).warnings = none ↔ ws = []) := by
+theorem warnings_order {Op : Type} (outs : List Outcome) (ws : List String) (ops : List Op) :
+    (buildResponse outs ws ops).warnings.getD [] = ws ∧
+    ((buildResponse outs ws ops).warnings = none ↔ ws = []) := by
   cases ws <;> simp [buildResponse]
+
+/-- The `patch` field: present exactly when the JSON patch is non-empty, always together with
+    `patchType = "JSONPatch"`, and — as in the code — independently of the outcomes: it is attached
+    on denial as well (the apiserver ignores it then). -/
+theorem patch_field_spec {Op : Type} (outs : List Outcome) (ws : List String) (ops : List Op) :
+    ((buildResponse outs ws ops).patch = none ↔ ops = []) ∧
+    (∀ p, (buildResponse outs ws ops).patch = some p → p = ops) ∧
+    ((buildResponse outs ws ops).patchType = if ops = [] then none else some "JSONPatch") ∧
+    (∀ outs' ws', (buildResponse outs' ws' ops).patch = (buildResponse outs ws ops).patch) := by
+  cases ops <;> simp [buildResponse]
 
 /-! ## which handlers run -/
 
@@ -117,6 +115,39 @@ theorem gate_ignores_operations_witness :
       gate h c true = true :=
   ⟨⟨"h", .validating, some ["CREATE"], none⟩, ⟨none, none, some "UPDATE", none⟩, rfl, rfl, by decide⟩
 
+/-- "the handler matches the operation": the request's operation is admitted by the operations the
+    handler declared, read as the rule list kopf generates for the handler's own webhook
+    (`managedRuleOps`: the declared collection, or `["*"]` when none/empty). -/
+def OpMatches (h : Handler) (c : Cause) : Prop :=
+  "*" ∈ managedRuleOps h ∨ ∃ op, c.operation = some op ∧ op ∈ managedRuleOps h
+
+/-- Full clause (FALSE of the code, `gate_ignores_operations_witness`, open finding C18-F3):
+      `gate h c m = true → OpMatches h c`.
+    Proved under the exact guard: the handler declared no operations, or the review carries a webhook
+    id (then only the handler with that id passes the gate) and the sender honours that webhook's
+    rules — which is what an apiserver does with kopf's managed configuration, where each handler's
+    webhook has its own URL ending in the handler id and `rules[].operations = managedRuleOps h`. -/
+theorem gate_spec_partial (h : Handler) (c : Cause) (m : Bool) (hg : gate h c m = true)
+    (guard : h.operations = none ∨
+             (c.webhook ≠ none ∧ (c.webhook = some h.id → OpMatches h c))) :
+    OpMatches h c := by
+  rcases guard with hn | ⟨hw, hr⟩
+  · left; simp [managedRuleOps, hn]
+  · have := ((gate_spec h c m).1 hg).2.1
+    rcases this with h0 | h1
+    · exact absurd h0 hw
+    · exact hr h1
+
+/-- with a webhook-id hint, at most the handler carrying that id runs -/
+theorem hinted_only_that_handler (hs : List (Handler × Bool)) (c : Cause) (id : String)
+    (hw : c.webhook = some id) (h : Handler) (hsel : h ∈ select hs c) : h.id = id := by
+  obtain ⟨m, _, hg⟩ := ((select_spec hs c h).1).1 hsel
+  have := ((gate_spec h c m).1 hg).2.1
+  rw [hw] at this
+  rcases this with h0 | h1
+  · cases h0
+  · exact (Option.some.inj h1).symm
+
 /-! ## fidelity of the mutation (code after the repair 74dc18a)
 
   For EVERY reviewed object (a mapping) and EVERY merge-style patch content — no well-typedness
@@ -148,8 +179,9 @@ theorem fidelity (b b' : J) (hb : b.isObj = true) (p : List (String × J))
 theorem dropEmpty_leafEq (j : J) (h : J.wf j = true) : LeafEq (dropEmpty j) j :=
   fun q => dropEmpty_leaf j h q
 
-/-- former F4 (raised TypeError before 74dc18a): a mapping over a scalar replaces it, as RFC 7386 -/
-theorem mapping_over_scalar_replaces :
+/-- former F4 (raised TypeError before 74dc18a): a mapping over a scalar replaces it, as RFC 7386
+    (regression instance of `apply_total` / `fidelity`) -/
+example :
     applyPatch (.obj [("spec", .obj [("a", .num 1)])]) [("spec", .obj [("a", .obj [("b", .num 2)])])]
       = .ok (.obj [("spec", .obj [("a", .obj [("b", .num 2)])])]) ∧
     mergePatch (.obj [("spec", .obj [("a", .num 1)])]) (.obj [("spec", .obj [("a", .obj [("b", .num 2)])])])
@@ -157,12 +189,118 @@ theorem mapping_over_scalar_replaces :
 
 /-- former C18-F2 (silently ignored before 74dc18a): an empty mapping over a scalar replaces it;
     a deletion below a list removes the whole key (RFC 7386 leaves `{}`: equal up to an empty mapping) -/
-theorem empty_mapping_over_scalar_replaces :
+example :
     applyPatch (.obj [("a", .num 1)]) [("a", .obj [])] = .ok (.obj [("a", .obj [])]) ∧
     applyPatch (.obj [("a", .arr [.num 1]), ("z", .num 1)]) [("a", .obj [("b", .null)])]
       = .ok (.obj [("z", .num 1)]) ∧
     mergePatch (.obj [("a", .arr [.num 1]), ("z", .num 1)]) (.obj [("a", .obj [("b", .null)])])
       = .obj [("a", .obj []), ("z", .num 1)] := ⟨rfl, rfl, rfl⟩
+
+/-! ### transformations and the returned JSON patch -/
+
+/-- "…and transformations applied": whenever the code's path (`mutated` = merge instructions, then the
+    functions in order) and the reference path (RFC 7386 merge, then the same functions) both return,
+    the results have the same leaves. The functions are the two the framework queues
+    (`block_deletion`, `allow_deletion`); both raise on a `metadata`/`finalizers` of the wrong type —
+    in the code (AttributeError/TypeError) and in the model — hence the two "returns" hypotheses. -/
+theorem fidelity_fns (b r m : J) (hb : b.isObj = true) (p : List (String × J)) (fns : List Fn)
+    (hr : mutated b p fns = .ok r)
+    (hm : applyFns (mergePatch b (.obj p)) fns = .ok m) : LeafEq r m := by
+  unfold mutated at hr
+  cases h1 : applyPatch b p with
+  | error e => simp [h1] at hr
+  | ok b1 =>
+    simp only [h1] at hr
+    intro q
+    have hl : leafAt b1 = leafAt (mergePatch b (.obj p)) := funext (fidelity b b1 hb p h1)
+    rw [applyFns_sem fns b1 r hr, applyFns_sem fns _ m hm, hl]
+
+/-- The clause as the property states it — "the returned JSON patch, applied to the reviewed object,
+    yields the object with the requested field changes and transformations applied, up to the
+    presence of empty mappings" — for the whole review (`serve`), with the third-party diff library
+    as an explicit hypothesis instead of a trusted-base note:
+      `contract` : applying `from_diff a b` to `a` gives `b` (jsonpatch's documented contract; the
+                   open findings C18-F4 / C18-F5 are inputs on which jsonpatch 1.33 breaks it);
+      `nil`      : the empty patch changes nothing.
+    Holds whatever the handlers' outcomes are (the patch is attached on denial too). -/
+theorem returned_patch_fidelity {Op : Type} (applyOps : J → List Op → Option J)
+    (fromDiff : J → J → List Op)
+    (contract : ∀ a b, applyOps a (fromDiff a b) = some b) (nil : ∀ a, applyOps a [] = some a)
+    (hs : List (Handler × Bool)) (c : Cause) (act : Handler → Act)
+    (b m : J) (hb : b.isObj = true) (p : List (String × J)) (fns : List Fn) (resp : Response Op)
+    (hserve : serve fromDiff hs c act b p fns = .ok resp)
+    (hm : applyFns (mergePatch b (.obj p)) fns = .ok m) :
+    ∃ r, appliedObject applyOps b resp = some r ∧ LeafEq r m := by
+  obtain ⟨kvs, rfl⟩ : ∃ kvs, b = .obj kvs := by cases b <;> simp [isObj] at hb; exact ⟨_, rfl⟩
+  unfold serve at hserve
+  cases hj : asJsonPatch fromDiff (.obj kvs) p fns with
+  | error e => simp [hj] at hserve
+  | ok ops =>
+    simp only [hj] at hserve
+    cases hserve
+    unfold asJsonPatch at hj
+    by_cases he : (p.isEmpty && fns.isEmpty) = true
+    · -- falsy patch: no operations, nothing requested
+      simp only [he, if_true] at hj
+      cases hj
+      simp only [Bool.and_eq_true, List.isEmpty_iff] at he
+      obtain ⟨rfl, rfl⟩ := he
+      refine ⟨.obj kvs, by simp [appliedObject, buildResponse], ?_⟩
+      simp only [applyFns, mergePatch, mergeKvs] at hm
+      cases hm
+      exact fun _ => rfl
+    · simp only [he] at hj
+      cases hmu : mutated (.obj kvs) p fns with
+      | error e => simp [hmu] at hj
+      | ok toBe =>
+        simp [hmu] at hj
+        subst hj
+        have hle := fidelity_fns (.obj kvs) toBe m hb p fns hmu hm
+        cases hops : fromDiff (.obj kvs) toBe with
+        | nil =>
+          have h1 := contract (.obj kvs) toBe
+          rw [hops, nil] at h1
+          cases h1
+          exact ⟨.obj kvs, by simp [appliedObject, buildResponse], hle⟩
+        | cons o os =>
+          refine ⟨toBe, ?_, hle⟩
+          have h1 := contract (.obj kvs) toBe
+          rw [hops] at h1
+          simp [appliedObject, buildResponse, h1]
+
+/-- allowed ⇔ no SELECTED handler raised (selection and response combined) -/
+theorem serve_allowed_iff {Op : Type} (fromDiff : J → J → List Op) (hs : List (Handler × Bool)) (c : Cause)
+    (act : Handler → Act) (b : J) (p : List (String × J)) (fns : List Fn) (resp : Response Op)
+    (hserve : serve fromDiff hs c act b p fns = .ok resp) :
+    resp.allowed = true ↔ ∀ h m, (h, m) ∈ hs → gate h c m = true → (act h).error = none := by
+  unfold serve at hserve
+  cases hj : asJsonPatch fromDiff b p fns with
+  | error e => simp [hj] at hserve
+  | ok ops =>
+    simp only [hj] at hserve
+    cases hserve
+    rw [allowed_iff]
+    constructor
+    · intro h1 h m hmem hg
+      exact h1 _ (List.mem_map.2 ⟨h, ((select_spec hs c h).1).2 ⟨m, hmem, hg⟩, rfl⟩)
+    · intro h1 o ho
+      obtain ⟨h, hsel, rfl⟩ := List.mem_map.1 ho
+      obtain ⟨m, hmem, hg⟩ := ((select_spec hs c h).1).1 hsel
+      exact h1 h m hmem hg
+
+/-- the warnings of the response are those the selected handlers issued, handler by handler in
+    registry (= execution) order, each handler's own in the order it issued them -/
+theorem serve_warnings_order {Op : Type} (fromDiff : J → J → List Op) (hs : List (Handler × Bool)) (c : Cause)
+    (act : Handler → Act) (b : J) (p : List (String × J)) (fns : List Fn) (resp : Response Op)
+    (hserve : serve fromDiff hs c act b p fns = .ok resp) :
+    resp.warnings.getD [] = (select hs c).flatMap (fun h => (act h).warnings) := by
+  unfold serve at hserve
+  cases hj : asJsonPatch fromDiff b p fns with
+  | error e => simp [hj] at hserve
+  | ok ops =>
+    simp only [hj] at hserve
+    cases hserve
+    exact (warnings_order _ _ _).1
 
 /-- the remaining guard is needed: over a non-mapping root the root call raises (ValueError) -/
 theorem apply_nonmapping_root_raises :
@@ -184,11 +322,43 @@ example : ∃ b', applyPatch
     [("spec", .obj [("a", .obj [("x", .null)])])] = .ok b' ∧ b' = .obj [("k", .num 1)] := ⟨_, rfl, rfl⟩
 
 -- the response clauses on a mixed outcome list: temporary, admission(403), admission(400) → first admission
+-- … and the patch is attached although the review is denied:
 example : (buildResponse [none, some ⟨.temporary, none, "t", "T"⟩, some ⟨.admission, some 403, "", "A()"⟩,
-    some ⟨.admission, some 400, "x", "A('x')"⟩] ["w1", "w2"])
-    = ⟨false, some ⟨"A()", 403⟩, some ["w1", "w2"]⟩ := by decide
+    some ⟨.admission, some 400, "x", "A('x')"⟩] ["w1", "w2"] [(1 : Nat)])
+    = ⟨false, some ⟨"A()", 403⟩, some ["w1", "w2"], some [1], some "JSONPatch"⟩ := by
+  simp [buildResponse, errorsOf, pickMin, prio, message, statusCode]
 
 example : gate ⟨"h", .mutating, some ["DELETE"], some "*"⟩ ⟨none, some "h", some "DELETE", some "status"⟩ true = true := by decide
 example : gate ⟨"h", .mutating, some ["CREATE", "DELETE"], none⟩ ⟨none, none, some "DELETE", none⟩ true = false := by decide
+
+-- `fidelity_fns`: both paths return on a body with finalizers, a patch that edits metadata and
+-- empties a parent, and the functions remove-then-add:
+example :
+    mutated (.obj [("metadata", .obj [("finalizers", .arr [.str "x"])]), ("spec", .obj [("a", .num 1)])])
+      [("spec", .obj [("a", .null)]), ("metadata", .obj [("labels", .obj [("l", .str "v")])])]
+      [.removeFinalizer "x", .addFinalizer "k"]
+      = .ok (.obj [("metadata", .obj [("labels", .obj [("l", .str "v")]), ("finalizers", .arr [.str "k"])])]) ∧
+    applyFns (mergePatch
+      (.obj [("metadata", .obj [("finalizers", .arr [.str "x"])]), ("spec", .obj [("a", .num 1)])])
+      (.obj [("spec", .obj [("a", .null)]), ("metadata", .obj [("labels", .obj [("l", .str "v")])])]))
+      [.removeFinalizer "x", .addFinalizer "k"]
+      = .ok (.obj [("metadata", .obj [("labels", .obj [("l", .str "v")]), ("finalizers", .arr [.str "k"])]),
+                   ("spec", .obj [])]) := ⟨rfl, rfl⟩
+
+-- `returned_patch_fidelity`: its two library hypotheses are satisfiable (the "replace the root"
+-- diff library), and a denied review with a mutating handler meets the others:
+example : ∃ r, appliedObject (fun a ops => some (ops.getLastD a))
+      (.obj [("spec", .obj [("a", .num 1)])])
+      (buildResponse [some ⟨.admission, some 403, "no", "A('no')"⟩] [] [J.obj [("spec", .obj [("a", .num 2)])]])
+      = some r ∧ LeafEq r (.obj [("spec", .obj [("a", .num 2)])]) :=
+  returned_patch_fidelity (Op := J) (fun a ops => some (ops.getLastD a)) (fun _ b => [b])
+    (fun _ _ => rfl) (fun _ => rfl)
+    [(⟨"m", .mutating, none, none⟩, true), (⟨"v", .validating, some ["CREATE"], none⟩, false)]
+    ⟨none, none, some "UPDATE", none⟩ (fun _ => ⟨[], some ⟨.admission, some 403, "no", "A('no')"⟩⟩)
+    _ _ rfl [("spec", .obj [("a", .num 2)])] [] _ rfl rfl
+
+-- `gate_spec_partial`: a hinted review routed by the handler's own rule
+example : OpMatches ⟨"h", .validating, some ["CREATE", "UPDATE"], none⟩ ⟨none, some "h", some "UPDATE", none⟩ :=
+  gate_spec_partial _ _ true (by decide) (Or.inr ⟨by simp, fun _ => Or.inr ⟨"UPDATE", rfl, by simp [managedRuleOps]⟩⟩)
 
 end Kopf.C18
